@@ -83,6 +83,7 @@ Counters.getitem = _cnt_getitem
 Counters.setitem = _cnt_setitem
 Counters.contains_hook = _cnt_contains
 Counters.methods = {'get': lambda ex, v, a, kw: _cnt_getitem(ex, v, a[0])}
+Counters.attr_hooks = {'get': lambda ex, v: Handler('dict.get', lambda ex2, a, kw, v=v: _cnt_getitem(ex2, v, a[0]), 'rng_counters.get(key) for a key that is present')}
 
 
 def _as_jax_rng(ex, a, kw):
